@@ -632,6 +632,15 @@ func execScenario(sc *Scenario, opt lib.GenOptions, withTrace bool) *ExecResult 
 					}
 					r.hit("failed-op:store-wrong-root")
 				}
+				if c, attempted, err := a.StoreWrongParent(bd); attempted {
+					r.op("A.store of fork%d[0] with a parent hash that is not the head's (must fail)", ri)
+					r.Trace.store(a, c, nil, err)
+					if err == nil {
+						r.find("block-not-extending-head-stored", "Store accepted a block whose parent hash is not the head's hash", nil)
+						return r
+					}
+					r.hit("failed-op:store-wrong-parent")
+				}
 				if len(line.cg.Bundles) >= 2 {
 					// a block that does not extend the head (its parent is stored already)
 					if err := storeOn(a, line.cg.Bundles[len(line.cg.Bundles)-2], nil); err == nil {
